@@ -443,12 +443,12 @@ func (r *runner) onePath(path []edge, repeat int) error {
 				return err
 			}
 		}
-		if err := w.Arrange(exp.d.Basis, exp.d.Inp); errors.Is(err, errDrained) {
+		if err := w.Prepare(exp.d); errors.Is(err, errDrained) {
 			r.drop()
 			if w, err = r.world(); err != nil {
 				return err
 			}
-			if err := w.Arrange(exp.d.Basis, exp.d.Inp); err != nil {
+			if err := w.Prepare(exp.d); err != nil {
 				return fmt.Errorf("%v: arrange in a fresh world: %w", exp.d, err)
 			}
 		} else if err != nil {
@@ -603,7 +603,7 @@ type event struct {
 
 var driverKinds = []string{"form", "renew", "refreshFull", "refreshPartial"}
 var driverBases = []string{"same", "same", "behind", "fork", "forkx"}
-var driverPVs = []string{"allow0", "coll", "price", "proof", "chal", "hfund", "rfund"}
+var driverPVs = []string{"allow0", "coll", "price", "proof", "chal", "hfund", "rfund", "noelem", "noelem"}
 var driverFaults = []string{"none", "dial", "cutB1", "cutA1", "cutB2", "cutA2", "cutB3", "cutA3", "cutB4", "cutA4",
 	"m1basis", "m1value", "m2low", "m2id", "m3sig", "m3pol", "m3len", "m4empty", "m4sig", "m4txn", "bcast"}
 var earlyFaults = []string{"none", "dial", "cutB1", "cutA1", "cutB2", "cutA2", "m1basis", "m1value"}
@@ -685,6 +685,7 @@ func driveOne(res *hx.Result, tw *hx.TraceWriter, tr int64, tlen int, stub strin
 	w.log.sink = func(c call) { emit(event{Op: "C", C: c.C, Res: c.Res}) }
 	defer func() { w.log.sink = nil }()
 	leaks := 0
+	actDead := false
 	var sample []Desc
 	for i := 0; i < tlen; i++ {
 		d := Desc{Kind: driverKinds[rng.Intn(len(driverKinds))], PV: "ok", Basis: driverBases[rng.Intn(len(driverBases))], Inp: "conf", Fault: "none"}
@@ -698,6 +699,11 @@ func driveOne(res *hx.Result, tw *hx.TraceWriter, tr int64, tlen int, stub strin
 			if d.PV == "chal" && d.Kind == "form" || d.PV == "proof" && strings.HasPrefix(d.Kind, "refresh") {
 				d.PV = "allow0"
 			}
+			// "the existing contract is not confirmed yet" needs a renewal of a contract the host
+			// still considers alive (the harness forms a fresh one and withholds its broadcast)
+			if d.PV == "noelem" && (d.Kind == "form" || actDead) {
+				d.PV = "allow0"
+			}
 			d.Fault = earlyFaults[rng.Intn(len(earlyFaults))]
 		default:
 			d.Fault = driverFaults[rng.Intn(len(driverFaults))]
@@ -709,7 +715,7 @@ func driveOne(res *hx.Result, tw *hx.TraceWriter, tr int64, tlen int, stub strin
 		}
 		for rep := 0; rep < reps; rep++ {
 			w.log.sink = nil
-			if err := w.Arrange(d.Basis, d.Inp); errors.Is(err, errDrained) {
+			if err := w.Prepare(d); errors.Is(err, errDrained) {
 				res.Sample(map[string]any{"trace": tr, "attempts_prefix": sample, "ended_after": i, "why": "renter wallet drained"})
 				return nil
 			} else if err != nil {
@@ -737,6 +743,7 @@ func driveOne(res *hx.Result, tw *hx.TraceWriter, tr int64, tlen int, stub strin
 				return err
 			}
 			res.Eval(fmt.Sprintf("%v|%s|%v", d, o.R, o.Committed))
+			actDead = o.ActDead && o.R != "ok" // a success moves the renter on to the new contract
 			if len(sample) < 6 {
 				sample = append(sample, d)
 			}
@@ -804,7 +811,7 @@ func TestProbe(t *testing.T) {
 	}
 	t.Logf("world + initial contract in %v", time.Since(t0))
 	d := Desc{Kind: hx.Env("PROBE_KIND", "form"), PV: hx.Env("PROBE_PV", "ok"), Basis: hx.Env("PROBE_BASIS", "same"), Inp: hx.Env("PROBE_INP", "conf"), Fault: hx.Env("PROBE_FAULT", "none")}
-	if err := w.Arrange(d.Basis, d.Inp); err != nil {
+	if err := w.Prepare(d); err != nil {
 		t.Fatal(err)
 	}
 	o, err := w.Attempt(d)
